@@ -136,13 +136,13 @@ func Check(p *Prop, tier string, workerExe string) int {
 		wg.Add(1)
 		go func(w int) {
 			defer wg.Done()
-			from := 0
+			from, skip := 0, 0
 			prog := filepath.Join(progDir, fmt.Sprintf("w%d.json", w))
-			for attempt := 0; attempt < 200; attempt++ {
+			for attempt := 0; attempt < 5000; attempt++ {
 				_ = os.Remove(prog)
 				args := []string{"worker", "-p", p.ID, "-tier", tier, "-seed", strconv.FormatUint(seed, 10),
 					"-worker", strconv.Itoa(w), "-workers", strconv.Itoa(workers), "-known", string(kp),
-					"-deadline", strconv.Itoa(int(deadline.Seconds())), "-from", strconv.Itoa(from), "-progress", prog,
+					"-deadline", strconv.Itoa(int(deadline.Seconds())), "-from", strconv.Itoa(from), "-skipsub", strconv.Itoa(skip), "-progress", prog,
 					"-mem", strconv.Itoa(p.MemLimitMiB)}
 				o := runWorkerProc(workerExe, args, deadline*3+120*time.Second, prog, time.Duration(p.HangSeconds)*time.Second)
 				outs[w] = append(outs[w], o)
@@ -168,7 +168,13 @@ func Check(p *Prop, tier string, workerExe string) int {
 				outs[w][len(outs[w])-1].crash = &Failure{Signature: p.ID + "/fatal/" + cls, Detail: "worker process died while executing this trace: " + firstLine(o.err),
 					Seed: seed, RunIndex: pr.Idx, Trace: t, OrigOps: len(t.Ops), MinOps: len(t.Ops), Count: 1}
 				outs[w][len(outs[w])-1].err = ""
-				from = pr.Idx + 1
+				// resume: the same run after the sub-run that killed the worker, or
+				// the next run when the death was not inside an announced sub-run
+				if pr.Fault != nil && pr.Sub > 0 {
+					from, skip = pr.Idx, pr.Sub
+				} else {
+					from, skip = pr.Idx+1, 0
+				}
 			}
 		}(w)
 	}
@@ -462,6 +468,25 @@ wait:
 // crashClass classifies the death of a worker process; "" = not a recognised
 // library-induced death (then it is infrastructure trouble).
 func crashClass(msg string) string {
+	c := crashKind(msg)
+	if c == "" || c == "hang" {
+		return c
+	}
+	// the first library frame of the dying goroutine names the site
+	for _, l := range strings.Split(msg, "\n") {
+		l = strings.TrimSpace(l)
+		if strings.HasPrefix(l, "github.com/scigolib/hdf5") && !strings.HasPrefix(l, "github.com/scigolib/hdf5/verifsim") {
+			fn := strings.TrimPrefix(l, "github.com/scigolib/hdf5")
+			if i := strings.LastIndex(fn, "("); i > 0 {
+				fn = fn[:i]
+			}
+			return c + "@" + fn
+		}
+	}
+	return c
+}
+
+func crashKind(msg string) string {
 	switch {
 	case strings.HasPrefix(msg, "HANG"):
 		return "hang"
